@@ -288,6 +288,11 @@ def rule_seq(env, shared):
     return out
 
 
+def norm_path(p):
+    from facts import norm_std
+    return norm_std(p) if p else p
+
+
 def rule_len(env, shared):
     """LEN: try_get_len = LEN - counter under counter < LEN, else 0; the ticket implementor answers 0 once the end flag
     is set; has_more maps None/Some(0)/Some(n) to Maybe/No/Yes(n) and is not overridden; the initial length of a wrapped
@@ -396,21 +401,39 @@ def rule_len(env, shared):
                       "the length answer of the wrapper is not `captured length - counter` under a false end flag "
                       "(shape=%s, under flag false=%s%s)" % (shape_ok, gated, ", offending: " + fmt(shape_bad)[:80]
                                                              if shape_bad is not None else ""), True))
-        # constructor: captured only for exact size hints
+        # constructor: captured only for exact size hints — every way the captured-length field can get a `Some` lies under
+        # `lower == upper` of the size hint and carries one of the two
         ctor_ok = None
+        cl = loc
+        from guards import local_cases as _lc
+        lf = None
+        for i, f in enumerate(r["fields"]):
+            if f["ty"]["s"].replace("core::", "std::").startswith("std::option::Option<usize>"):
+                lf = i
         for cb in F.non_test_bodies():
-            if F.impl_self_adt(cb) != adt or cb.is_closure:
+            if F.impl_self_adt(cb) != adt or cb.is_closure or lf is None:
                 continue
             cctx = env.ctx(cb, adt, None)
             for bi, blk in enumerate(cb.blocks):
+                if blk["cleanup"]:
+                    continue
                 for s in blk["stmts"]:
-                    if s["k"] == "assign" and s["rv"]["k"] == "aggregate" and s["rv"].get("variant_name") == "Some":
-                        v = ev.operand(cctx, s["rv"]["ops"][0])
-                        if "Iterator::size_hint" in fmt(v) or "size_hint" in fmt(v):
-                            eqs = [f for f in block_facts(ev, cctx, bi) if f[0] == "eq" and len(f) == 3
-                                   and "size_hint" in fmt(f[1]) and "size_hint" in fmt(f[2])]
-                            ctor_ok = bool(eqs)
-                            cl = cb.file_line(s["loc"])
+                    if s["k"] == "assign" and s["rv"]["k"] == "aggregate" and s["rv"].get("ak") == "adt" \
+                            and norm_path(s["rv"]["adt"]) == adt and lf < len(s["rv"]["ops"]):
+                        op = s["rv"]["ops"][lf]
+                        if op["k"] not in ("copy", "move") or op["place"]["p"]:
+                            continue
+                        cases = [c for c in (_lc(ev, cctx, op["place"]["l"], True) or []) if c[0] == "Some"]
+                        if not cases:
+                            continue
+                        cl = cb.file_line(s["loc"])
+                        ctor_ok = True
+                        for (K, fs, v) in cases:
+                            eqs = [f for f in fs if f[0] == "eq" and len(f) == 3 and "size_hint" in fmt(f[1])
+                                   and "size_hint" in fmt(f[2])]
+                            val_ok = v is not None and v[0] == "agg" and v[2] and "size_hint" in fmt(v[2][0])
+                            if not (eqs and val_ok):
+                                ctor_ok = False
         k4 = key + "|exact-size-hint"
         if ctor_ok is None:
             out.append(Ob("LEN", k4, "viol", loc, "cannot find where the wrapper captures the size hint"))
